@@ -234,7 +234,11 @@ scpi_bool_t SCPI_Parse(scpi_t * context, char * data, int len) {
 
             composeCompoundCommand(&cmd_prev, &state->programHeader);
 
-            if (findCommandHeader(context, state->programHeader.ptr, state->programHeader.len)) {
+            if (state->numberOfParameters < 0) {
+                /* program data are not well formed, e.g. nothing after the last comma or unterminated string */
+                SCPI_ErrorPush(context, SCPI_ERROR_INVALID_STRING_DATA);
+                result = FALSE;
+            } else if (findCommandHeader(context, state->programHeader.ptr, state->programHeader.len)) {
 
                 context->param_list.lex_state.buffer = state->programData.ptr;
                 context->param_list.lex_state.pos = context->param_list.lex_state.buffer;
@@ -1478,7 +1482,8 @@ int scpiParser_parseAllProgramData(lex_state_t * state, scpi_token_t * token, in
         } else {
             token->type = SCPI_TOKEN_UNKNOWN;
             token->len = 0;
-            paramCount = -1;
+            /* nothing but white space after the header is an empty list, everything else are malformed data */
+            paramCount = ((paramCount > 0) || (state->pos != token->ptr)) ? -1 : 0;
             break;
         }
         paramCount++;
